@@ -7,6 +7,41 @@ Require Import Tinode.Sys.Lifecycle Tinode.Sys.LifecycleProofs Tinode.Sys.Lifecy
    (the step excluded by reach_safe only forgets a Done: the counter can stay too high, never too low) *)
 Definition bal_le (c : config) : Prop := forall s, pending s c <= s_inflight (c_sess c s).
 
+Lemma bal_le_unreg_step : forall c i a e c',
+  init_true c -> bal_le c -> unreg_step c i a e = Some c' -> bal_le c'.
+Proof.
+  intros c i a e c' (H1 & H2 & H3) Hb Hs. unfold unreg_step in Hs. unfold bal_le in *.
+  destruct (negb (is_run (i_phase (c_inst c i)))); [discriminate|].
+  destruct (take_first i (c_tunreg c)) as [[r unreg']|] eqn:E; [|discriminate].
+  simpl in Hs. inv_some.
+  intros s0; generalize (cntp_take_first s0 _ _ _ _ E); intros Hc; revert s0 Hc.
+  destruct (r_init r) eqn:Ei; simpl.
+  + destruct (inactive (c_inst c i)); [fin Hb|].
+    destruct (r_kind r) as [|[|]|]; simpl.
+    * destruct (mem _ _); fin Hb.
+    * destruct (_ =? _); [fin Hb|]. destruct e; [fin Hb|].
+      intros s0 Hc. specialize (Hb s0). unfold pending in *. simpl in *.
+      unfold on_sess, upd in *. simpl in *. unfold mine in *. rewrite Ei in *. simpl in *.
+      destruct (Nat.eqb_spec s0 (r_sid r)) as [->|Hne].
+      -- rewrite Nat.eqb_refl in *. simpl in *.
+         destruct (mem (r_sid r) (i_sessions (c_inst c i)) && _); rewrite ?Nat.eqb_refl; autorewrite with lc; simpl; autorewrite with lc; lia.
+      -- assert (En : Nat.eqb (r_sid r) s0 = false) by (apply Nat.eqb_neq; auto). rewrite En in *. simpl in *.
+         destruct (mem s0 (i_sessions (c_inst c i)) && _);
+           repeat (match goal with |- context [Nat.eqb ?a ?b] => destruct (Nat.eqb_spec a b); subst; simpl in * end);
+           autorewrite with lc; simpl; autorewrite with lc; try lia; try congruence.
+    * destruct (mem _ _); fin Hb.
+    * destruct (mem _ _); fin Hb.
+  + destruct (inactive (c_inst c i)); [fin Hb|].
+    destruct (mem _ _); fin Hb.
+Qed.
+
+Lemma bal_le_pre404 : forall c r e, bal_le c -> bal_le (pre404 c r e).
+Proof.
+  intros c r e Hb s. destruct (pre404_sess c r e s) as (_ & -> & _).
+  destruct (pre404_frame c r e) as (_ & _ & _ & E1 & _ & E2 & E3 & E4 & _).
+  unfold pending. rewrite E1, E2, E3, E4. apply Hb.
+Qed.
+
 Lemma bal_le_step : forall c l c',
   init_true c -> bal_le c -> step c l c' -> bal_le c'.
 Proof.
@@ -72,30 +107,11 @@ Proof.
     intros s0; generalize (cntp_take_first s0 _ _ _ _ E); intros Hc; revert s0 Hc.
     destruct (inactive (c_inst c i)); [fin Hb|].
     destruct (lookup _ _); [fin Hb|].
+    destruct (verify_chan _ _ _) as [aC [|]]; [fin Hb|].
     destruct ok; fin Hb.
   - (* TopicUnreg *)
-    destruct (negb (is_run (i_phase (c_inst c i)))); [discriminate|].
-    destruct (take_first i (c_tunreg c)) as [[r unreg']|] eqn:E; [|discriminate].
-    simpl in Hs. inv_some.
-    intros s0; generalize (cntp_take_first s0 _ _ _ _ E); intros Hc; revert s0 Hc.
-    destruct (r_init r) eqn:Ei; simpl.
-    + destruct (inactive (c_inst c i)); [fin Hb|].
-      destruct (r_kind r) as [|[|]|]; simpl.
-      * destruct (mem _ _); fin Hb.
-      * destruct (_ =? _); [fin Hb|].
-        intros s0 Hc. specialize (Hb s0). unfold pending in *. simpl in *.
-        unfold on_sess, upd in *. simpl in *. unfold mine in *. rewrite Ei in *. simpl in *.
-        destruct (Nat.eqb_spec s0 (r_sid r)) as [->|Hne].
-        -- rewrite Nat.eqb_refl in *. simpl in *.
-           destruct (mem (r_sid r) (i_sessions (c_inst c i)) && _); rewrite ?Nat.eqb_refl; autorewrite with lc; simpl; autorewrite with lc; lia.
-        -- assert (En : Nat.eqb (r_sid r) s0 = false) by (apply Nat.eqb_neq; auto). rewrite En in *. simpl in *.
-           destruct (mem s0 (i_sessions (c_inst c i)) && _);
-             repeat (match goal with |- context [Nat.eqb ?a ?b] => destruct (Nat.eqb_spec a b); subst; simpl in * end);
-             autorewrite with lc; simpl; autorewrite with lc; try lia; try congruence.
-      * destruct (mem _ _); fin Hb.
-      * destruct (mem _ _); fin Hb.
-    + destruct (inactive (c_inst c i)); [fin Hb|].
-      destruct (mem _ _); fin Hb.
+    destruct (exec_unreg_inv _ _ _ Hs) as (r0 & rest0 & aC & eR & _ & _ & Hu).
+    eapply bal_le_unreg_step; [| |exact Hu]; [apply init_true_pre404; repeat split; auto|apply bal_le_pre404; exact Hb].
   - (* Evict *)
     destruct (negb (is_run (i_phase (c_inst c i))) || negb (mem s (i_sessions (c_inst c i)))); [discriminate|].
     destruct (inactive (c_inst c i)); inv_some; fin Hb.
@@ -153,6 +169,19 @@ Proof.
     + destruct (drain_unreg i rest f) as [l2 f2] eqn:E. inversion H; subst. eapply IH; eauto.
 Qed.
 
+Lemma unreg_step_sess_flags : forall c i a e c', unreg_step c i a e = Some c' -> forall s0,
+  s_done (c_sess c' s0) = s_done (c_sess c s0) /\ s_term (c_sess c' s0) = s_term (c_sess c s0) /\
+  (s_inflight (c_sess c' s0) <= s_inflight (c_sess c s0) \/ s_term (c_sess c s0) = false).
+Proof.
+  intros c i a e c' Hs s0. unfold unreg_step in Hs.
+  destruct (negb (is_run (i_phase (c_inst c i)))); [discriminate|].
+  destruct (take_first i (c_tunreg c)) as [[r unreg']|] eqn:E; [|discriminate]. simpl in Hs. inv_some.
+  destruct (inactive (c_inst c i)); [destruct (r_init r)|destruct (r_init r); [destruct (r_kind r) as [|[|]|]|]];
+    simpl; unfold on_sess, on_inst, upd; simpl; deq;
+    repeat match goal with |- context [if ?b then _ else _] => destruct b eqn:?; simpl end;
+    deq; autorewrite with lc; simpl; auto; repeat split; auto; try (left; lia); congruence.
+Qed.
+
 (* what one step does to the termination flags and the in-flight counter of a session *)
 Lemma step_sess_flags : forall c l c', step c l c' -> forall s0,
   (s_done (c_sess c' s0) = s_done (c_sess c s0) /\ s_term (c_sess c' s0) = s_term (c_sess c s0) /\
@@ -183,15 +212,12 @@ Proof.
   - (* TopicReg *)
     destruct (negb (is_run (i_phase (c_inst c i)))); [discriminate|].
     destruct (take_first i (c_treg c)) as [[r reg']|] eqn:E; [|discriminate]. simpl in Hs. inv_some. left.
-    destruct (inactive (c_inst c i)); [|destruct (lookup _ _); [|destruct ok]];
+    destruct (inactive (c_inst c i)); [|destruct (lookup _ _); [|destruct (verify_chan _ _ _) as [aC [|]]; [|destruct ok]]];
       simpl; unfold on_sess, on_inst, upd; simpl; deq; autorewrite with lc; simpl; auto; repeat split; auto; left; lia.
   - (* TopicUnreg *)
-    destruct (negb (is_run (i_phase (c_inst c i)))); [discriminate|].
-    destruct (take_first i (c_tunreg c)) as [[r unreg']|] eqn:E; [|discriminate]. simpl in Hs. inv_some. left.
-    destruct (inactive (c_inst c i)); [destruct (r_init r)|destruct (r_init r); [destruct (r_kind r) as [|[|]|]|]];
-      simpl; unfold on_sess, on_inst, upd; simpl; deq;
-      repeat match goal with |- context [if ?b then _ else _] => destruct b eqn:?; simpl end;
-      deq; autorewrite with lc; simpl; auto; repeat split; auto; try (left; lia); congruence.
+    destruct (exec_unreg_inv _ _ _ Hs) as (r0 & rest0 & aC & eR & _ & _ & Hu).
+    left. pose proof (unreg_step_sess_flags _ _ _ _ _ Hu s0) as X.
+    destruct (pre404_sess c r0 eR s0) as (_ & Q1 & Q2 & Q3 & _). rewrite Q1, Q2, Q3 in X. exact X.
   - exec_split Hs; inv_some; left; simpl; unfold on_sess, on_inst, upd; simpl; deq; autorewrite with lc; simpl; auto.
   - exec_split Hs; inv_some; left; simpl; auto.
   - exec_split Hs; inv_some; left; simpl; unfold on_sess, on_inst, upd; simpl; deq; autorewrite with lc; simpl; auto.
@@ -239,6 +265,16 @@ Proof. intros c c' (Ei & Ex) H j. destruct (Ei j) as (-> & ->). rewrite Ex. appl
 Ltac same_del_tac :=
   split; [intros; simpl; unfold on_sess, on_inst, upd; simpl; deq; simpl; auto|reflexivity].
 
+Lemma del_exit_unreg_step : forall c i a e c', del_exit c -> unreg_step c i a e = Some c' -> del_exit c'.
+Proof.
+  intros c i a e c' H Hs. unfold unreg_step in Hs.
+  destruct (negb (is_run (i_phase (c_inst c i)))); [discriminate|].
+  destruct (take_first i (c_tunreg c)) as [[r unreg']|] eqn:E; [|discriminate]. simpl in Hs. inv_some.
+  (eapply del_exit_same; [|exact H]).
+  destruct (inactive (c_inst c i)); [destruct (r_init r)|destruct (r_init r); [destruct (r_kind r) as [|[|]|]|]];
+    simpl; repeat match goal with |- context [if ?b then _ else _] => destruct b eqn:?; simpl end; same_del_tac.
+Qed.
+
 Lemma del_exit_step : forall c l c', del_exit c -> step c l c' -> del_exit c'.
 Proof.
   intros c l c' H Hs. unfold step in Hs. destruct l; simpl in Hs.
@@ -265,13 +301,11 @@ Proof.
     destruct (negb (is_run (i_phase (c_inst c i)))); [discriminate|].
     destruct (take_first i (c_treg c)) as [[r reg']|] eqn:E; [|discriminate]. simpl in Hs. inv_some.
     (eapply del_exit_same; [|exact H]).
-    destruct (inactive (c_inst c i)); [|destruct (lookup _ _); [|destruct ok]]; same_del_tac.
+    destruct (inactive (c_inst c i)); [|destruct (lookup _ _); [|destruct (verify_chan _ _ _) as [aC [|]]; [|destruct ok]]]; same_del_tac.
   - (* TopicUnreg *)
-    destruct (negb (is_run (i_phase (c_inst c i)))); [discriminate|].
-    destruct (take_first i (c_tunreg c)) as [[r unreg']|] eqn:E; [|discriminate]. simpl in Hs. inv_some.
-    (eapply del_exit_same; [|exact H]).
-    destruct (inactive (c_inst c i)); [destruct (r_init r)|destruct (r_init r); [destruct (r_kind r) as [|[|]|]|]];
-      simpl; repeat match goal with |- context [if ?b then _ else _] => destruct b eqn:?; simpl end; same_del_tac.
+    destruct (exec_unreg_inv _ _ _ Hs) as (r0 & rest0 & aC & eR & _ & _ & Hu).
+    eapply del_exit_unreg_step; [|exact Hu].
+    intros j. destruct (pre404_frame c r0 eR) as (-> & _ & _ & _ & _ & _ & _ & _ & -> & _). apply H.
   - exec_split Hs; inv_some; (eapply del_exit_same; [|exact H]); same_del_tac.
   - exec_split Hs; inv_some; (eapply del_exit_same; [|exact H]); same_del_tac.
   - (* HubUnreg *)
@@ -352,6 +386,57 @@ Ltac mono_tac H :=
   |intros ? ?; simpl; unfold on_sess, on_inst, upd; simpl; deq; simpl; auto; try (intros; repeat split; auto; congruence)
   |intros ?; simpl; auto; try (intros; apply in_or_app; auto; fail)].
 
+Lemma done_leave_unreg_step : forall c i a e c',
+  done_leave c -> unreg_step c i a e = Some c' -> done_leave c'.
+Proof.
+  intros c i a e c' H Hs. unfold unreg_step in Hs.
+  destruct (i_phase (c_inst c i)) eqn:Ep; simpl in Hs; try discriminate.
+  destruct (take_first i (c_tunreg c)) as [[r unreg']|] eqn:E; [|discriminate]. simpl in Hs. inv_some.
+  (* generic: sessions only shrink, flags unchanged; the queue loses exactly (i, r) *)
+  assert (Hgen : forall c2,
+            (forall s, s_done (c_sess c2 s) = s_done (c_sess c s)) ->
+            (forall j, i_phase (c_inst c2 j) = i_phase (c_inst c j) /\ i_deleted (c_inst c2 j) = i_deleted (c_inst c j) /\
+                       forall s, mem s (i_sessions (c_inst c2 j)) = true -> mem s (i_sessions (c_inst c j)) = true) ->
+            c_tunreg c2 = unreg' ->
+            (inactive (c_inst c i) = true \/ r_init r = true \/ mem (r_sid r) (i_sessions (c_inst c2 i)) = false) ->
+            done_leave c2).
+  { intros c2 E1 E2 E3 E4 s j A B C. destruct (E2 j) as (Ph & Dl & Ms). rewrite Ph in B. rewrite Dl.
+    rewrite E1 in A. destruct (H s j A B (Ms _ C)) as [X|(q & X & Y & Z)]; [left; auto|].
+    destruct (take_first_cases _ _ _ _ _ _ E X) as [Eq|Hin].
+    - inversion Eq; subst j q. destruct E4 as [E4|[E4|E4]].
+      + left. unfold inactive in E4. rewrite Ep in E4. exact E4.
+      + congruence.
+      + subst s. congruence.
+    - right. exists q. rewrite E3. auto. }
+  destruct (inactive (c_inst c i)) eqn:Ein.
+  { destruct (r_init r); apply Hgen; auto; intros; simpl; unfold on_sess, on_inst, upd; simpl; deq; autorewrite with lc; simpl; auto. }
+  destruct (r_init r) eqn:Eri.
+  + apply Hgen; auto.
+    * intros s. destruct (r_kind r) as [|[|]|]; simpl; repeat match goal with |- context [if ?b then _ else _] => destruct b eqn:?; simpl end;
+        unfold on_sess, on_inst, upd; simpl; deq; repeat match goal with |- context [if ?b then _ else _] => destruct b eqn:?; simpl end;
+        autorewrite with lc; simpl; auto.
+    * intros j. destruct (r_kind r) as [|[|]|]; simpl; repeat match goal with |- context [if ?b then _ else _] => destruct b eqn:?; simpl end;
+        unfold on_sess, on_inst, upd; simpl; destruct (Nat.eqb_spec j i); subst; simpl; repeat split; auto;
+        intros s; rewrite ?mem_remove_nat, ?mem_filter; intros X; apply andb_true_iff in X; tauto.
+    * destruct (r_kind r) as [|[|]|]; simpl; repeat match goal with |- context [if ?b then _ else _] => destruct b eqn:?; simpl end; reflexivity.
+  + apply Hgen; auto.
+    * intros s. simpl; repeat match goal with |- context [if ?b then _ else _] => destruct b eqn:?; simpl end;
+        unfold on_sess, on_inst, upd; simpl; deq; autorewrite with lc; simpl; auto.
+    * intros j. simpl; repeat match goal with |- context [if ?b then _ else _] => destruct b eqn:?; simpl end;
+        unfold on_sess, on_inst, upd; simpl; destruct (Nat.eqb_spec j i); subst; simpl; repeat split; auto;
+        intros s; rewrite ?mem_remove_nat; intros X; apply andb_true_iff in X; tauto.
+    * simpl; repeat match goal with |- context [if ?b then _ else _] => destruct b eqn:?; simpl end; reflexivity.
+    * right. right. simpl. destruct (mem (r_sid r) (i_sessions (c_inst c i))) eqn:Em; simpl; unfold on_sess, on_inst, upd; simpl.
+      -- rewrite Nat.eqb_refl. simpl. rewrite mem_remove_nat, Nat.eqb_refl, andb_false_r. reflexivity.
+      -- exact Em.
+Qed.
+
+Lemma done_leave_pre404 : forall c r e, done_leave c -> done_leave (pre404 c r e).
+Proof.
+  intros c r e H s j. destruct (pre404_sess c r e s) as (_ & _ & _ & -> & _).
+  destruct (pre404_frame c r e) as (-> & _ & _ & _ & _ & _ & _ & -> & _). apply H.
+Qed.
+
 Lemma done_leave_step : forall c l c',
   inv_att c -> init_true c -> bal_le c -> done_flags c -> done_leave c -> step c l c' -> done_leave c'.
 Proof.
@@ -396,52 +481,15 @@ Proof.
       { eapply cntp_in_pos; eauto. unfold mine. rewrite Hri, Nat.eqb_refl. reflexivity. }
       lia. }
     destruct (inactive (c_inst c i)); [mono_tac H|].
-    destruct (lookup _ _); [mono_tac H|]. destruct ok; [|mono_tac H].
+    destruct (lookup _ _); [mono_tac H|]. destruct (verify_chan _ _ _) as [aC [|]]; [mono_tac H|]. destruct ok; [|mono_tac H].
     intros s j A B C. simpl in *. unfold on_sess, on_inst, upd in *. simpl in *.
     destruct (Nat.eqb_spec s (r_sid r)) as [->|Hs]; simpl in *; rewrite ?Nat.eqb_refl in *; simpl in *; autorewrite with lc in *; simpl in *; [congruence|].
     destruct (Nat.eqb_spec j i) as [->|Hji]; simpl in *.
     + rewrite mem_add in C. destruct (Nat.eqb_spec s (r_sid r)); [contradiction|]. rewrite orb_false_r in C. apply H; auto.
     + apply H; auto.
   - (* TopicUnreg *)
-    destruct (i_phase (c_inst c i)) eqn:Ep; simpl in Hs; try discriminate.
-    destruct (take_first i (c_tunreg c)) as [[r unreg']|] eqn:E; [|discriminate]. simpl in Hs. inv_some.
-    (* generic: sessions only shrink, flags unchanged; the queue loses exactly (i, r) *)
-    assert (Hgen : forall c2,
-              (forall s, s_done (c_sess c2 s) = s_done (c_sess c s)) ->
-              (forall j, i_phase (c_inst c2 j) = i_phase (c_inst c j) /\ i_deleted (c_inst c2 j) = i_deleted (c_inst c j) /\
-                         forall s, mem s (i_sessions (c_inst c2 j)) = true -> mem s (i_sessions (c_inst c j)) = true) ->
-              c_tunreg c2 = unreg' ->
-              (inactive (c_inst c i) = true \/ r_init r = true \/ mem (r_sid r) (i_sessions (c_inst c2 i)) = false) ->
-              done_leave c2).
-    { intros c2 E1 E2 E3 E4 s j A B C. destruct (E2 j) as (Ph & Dl & Ms). rewrite Ph in B. rewrite Dl.
-      rewrite E1 in A. destruct (H s j A B (Ms _ C)) as [X|(q & X & Y & Z)]; [left; auto|].
-      destruct (take_first_cases _ _ _ _ _ _ E X) as [Eq|Hin].
-      - inversion Eq; subst j q. destruct E4 as [E4|[E4|E4]].
-        + left. unfold inactive in E4. rewrite Ep in E4. exact E4.
-        + congruence.
-        + subst s. congruence.
-      - right. exists q. rewrite E3. auto. }
-    destruct (inactive (c_inst c i)) eqn:Ein.
-    { destruct (r_init r); apply Hgen; auto; intros; simpl; unfold on_sess, on_inst, upd; simpl; deq; autorewrite with lc; simpl; auto. }
-    destruct (r_init r) eqn:Eri.
-    + apply Hgen; auto.
-      * intros s. destruct (r_kind r) as [|[|]|]; simpl; repeat match goal with |- context [if ?b then _ else _] => destruct b eqn:?; simpl end;
-          unfold on_sess, on_inst, upd; simpl; deq; repeat match goal with |- context [if ?b then _ else _] => destruct b eqn:?; simpl end;
-          autorewrite with lc; simpl; auto.
-      * intros j. destruct (r_kind r) as [|[|]|]; simpl; repeat match goal with |- context [if ?b then _ else _] => destruct b eqn:?; simpl end;
-          unfold on_sess, on_inst, upd; simpl; destruct (Nat.eqb_spec j i); subst; simpl; repeat split; auto;
-          intros s; rewrite ?mem_remove_nat, ?mem_filter; intros X; apply andb_true_iff in X; tauto.
-      * destruct (r_kind r) as [|[|]|]; simpl; repeat match goal with |- context [if ?b then _ else _] => destruct b eqn:?; simpl end; reflexivity.
-    + apply Hgen; auto.
-      * intros s. simpl; repeat match goal with |- context [if ?b then _ else _] => destruct b eqn:?; simpl end;
-          unfold on_sess, on_inst, upd; simpl; deq; autorewrite with lc; simpl; auto.
-      * intros j. simpl; repeat match goal with |- context [if ?b then _ else _] => destruct b eqn:?; simpl end;
-          unfold on_sess, on_inst, upd; simpl; destruct (Nat.eqb_spec j i); subst; simpl; repeat split; auto;
-          intros s; rewrite ?mem_remove_nat; intros X; apply andb_true_iff in X; tauto.
-      * simpl; repeat match goal with |- context [if ?b then _ else _] => destruct b eqn:?; simpl end; reflexivity.
-      * right. right. simpl. destruct (mem (r_sid r) (i_sessions (c_inst c i))) eqn:Em; simpl; unfold on_sess, on_inst, upd; simpl.
-        -- rewrite Nat.eqb_refl. simpl. rewrite mem_remove_nat, Nat.eqb_refl, andb_false_r. reflexivity.
-        -- exact Em.
+    destruct (exec_unreg_inv _ _ _ Hs) as (r0 & rest0 & aC & eR & _ & _ & Hu).
+    eapply done_leave_unreg_step; [|exact Hu]. apply done_leave_pre404. exact H.
   - (* Evict *)
     exec_split Hs; inv_some; auto. mono_tac H. rewrite mem_remove_nat. intros ? X. apply andb_true_iff in X. tauto.
   - exec_split Hs; inv_some; mono_tac H.
@@ -466,7 +514,7 @@ Proof.
     intros s0 j A B C. simpl in *. unfold on_sess, upd in *. simpl in *.
     destruct (Nat.eqb_spec s0 s) as [->|Hne]; simpl in *.
     + right. pose proof (ia_mem_sub _ IA s j B C) as Hl. apply lookup_In in Hl.
-      exists (mkReq s 0 (KLeave false) (i_name (c_inst c j)) false). split; [|auto].
+      exists (mkReq s 0 (KLeave false) (i_name (c_inst c j)) false false). split; [|auto].
       apply in_or_app. right. apply in_map_iff. exists (i_name (c_inst c j), j). split; auto.
     + destruct (H s0 j A B C) as [X|(q & X & Y)]; [left; auto|right]. exists q. split; auto. apply in_or_app. auto.
 Qed.
@@ -525,8 +573,32 @@ Record inv_tbl (c : config) : Prop := mkIT {
   (* a termination request is only ever queued together with the deleted mark *)
   it_exit : forall x, In x (c_texit c) -> fst x < c_next c /\ i_deleted (c_inst c (fst x)) = true }.
 
-Lemma inv_tbl_init : forall st ow us, inv_tbl (init_config st ow us).
+Lemma inv_tbl_init : forall st ow us ch, inv_tbl (init_config st ow us ch).
 Proof. intros. constructor; simpl; intros; try discriminate; contradiction. Qed.
+
+Lemma inv_tbl_unreg_step : forall c i a e c', inv_tbl c -> unreg_step c i a e = Some c' -> inv_tbl c'.
+Proof.
+  intros c i a e c' [L R X] Hs. unfold unreg_step in Hs.
+  destruct (negb (is_run (i_phase (c_inst c i)))); [discriminate|].
+  destruct (take_first i (c_tunreg c)) as [[r unreg']|] eqn:E; [|discriminate]. simpl in Hs. inv_some.
+  assert (Hgen : forall c2, c_next c2 = c_next c -> c_store c2 = c_store c -> c_table c2 = c_table c -> c_texit c2 = c_texit c ->
+            (forall j, i_name (c_inst c2 j) = i_name (c_inst c j) /\ i_phase (c_inst c2 j) = i_phase (c_inst c j) /\
+                       i_deleted (c_inst c2 j) = i_deleted (c_inst c j)) -> inv_tbl c2).
+  { intros c2 E1 E2 E3 E4 E5. constructor.
+    - intros t j. rewrite E3, E1. destruct (E5 j) as (-> & -> & ->). apply L.
+    - intros t j. rewrite E3, E2. destruct (E5 j) as (_ & -> & _). apply R.
+    - intros x. rewrite E4, E1. destruct (E5 (fst x)) as (_ & _ & ->). apply X. }
+  apply Hgen; destruct (inactive (c_inst c i)); destruct (r_init r); try (destruct (r_kind r) as [|[|]|]); simpl;
+    repeat match goal with |- context [if ?b then _ else _] => destruct b eqn:?; simpl end; auto;
+    intros; unfold on_sess, on_inst, upd; simpl; deq; simpl; auto.
+Qed.
+
+Lemma inv_tbl_pre404 : forall c r e, inv_tbl c -> inv_tbl (pre404 c r e).
+Proof.
+  intros c r e [L R X].
+  destruct (pre404_frame c r e) as (Ei & En & Et & _ & _ & _ & _ & _ & Ex & Es & _).
+  constructor; rewrite ?Ei, ?En, ?Et, ?Ex, ?Es; auto.
+Qed.
 
 Lemma inv_tbl_step : forall c l c', inv_tbl c -> step c l c' -> inv_tbl c'.
 Proof.
@@ -583,21 +655,11 @@ Proof.
       - intros t j. rewrite E3, E1. destruct (E5 j) as (-> & -> & ->). apply L.
       - intros t j. rewrite E3, E2. destruct (E5 j) as (_ & -> & _). apply R.
       - intros x. rewrite E4, E1. destruct (E5 (fst x)) as (_ & _ & ->). apply X. }
-    apply Hgen; destruct (inactive (c_inst c i)); try (destruct (lookup _ _); [|destruct ok]); simpl; auto;
+    apply Hgen; destruct (inactive (c_inst c i)); try (destruct (lookup _ _); [|destruct (verify_chan _ _ _) as [aC [|]]; [|destruct ok]]); simpl; auto;
       intros; unfold on_sess, on_inst, upd; simpl; deq; simpl; auto.
   - (* TopicUnreg *)
-    destruct (negb (is_run (i_phase (c_inst c i)))); [discriminate|].
-    destruct (take_first i (c_tunreg c)) as [[r unreg']|] eqn:E; [|discriminate]. simpl in Hs. inv_some.
-    assert (Hgen : forall c2, c_next c2 = c_next c -> c_store c2 = c_store c -> c_table c2 = c_table c -> c_texit c2 = c_texit c ->
-              (forall j, i_name (c_inst c2 j) = i_name (c_inst c j) /\ i_phase (c_inst c2 j) = i_phase (c_inst c j) /\
-                         i_deleted (c_inst c2 j) = i_deleted (c_inst c j)) -> inv_tbl c2).
-    { intros c2 E1 E2 E3 E4 E5. constructor.
-      - intros t j. rewrite E3, E1. destruct (E5 j) as (-> & -> & ->). apply L.
-      - intros t j. rewrite E3, E2. destruct (E5 j) as (_ & -> & _). apply R.
-      - intros x. rewrite E4, E1. destruct (E5 (fst x)) as (_ & _ & ->). apply X. }
-    apply Hgen; destruct (inactive (c_inst c i)); destruct (r_init r); try (destruct (r_kind r) as [|[|]|]); simpl;
-      repeat match goal with |- context [if ?b then _ else _] => destruct b eqn:?; simpl end; auto;
-      intros; unfold on_sess, on_inst, upd; simpl; deq; simpl; auto.
+    destruct (exec_unreg_inv _ _ _ Hs) as (r0 & rest0 & aC & eR & _ & _ & Hu).
+    eapply inv_tbl_unreg_step; [|exact Hu]. apply inv_tbl_pre404. constructor; auto.
   - (* Evict *)
     destruct (negb (is_run (i_phase (c_inst c i))) || negb (mem s (i_sessions (c_inst c i)))); [discriminate|].
     destruct (inactive (c_inst c i)); inv_some; [constructor; auto|].
@@ -647,10 +709,19 @@ Qed.
 Lemma inv_tbl_reach : forall st ow us c, reach st ow us c -> inv_tbl c.
 Proof. induction 1; [apply inv_tbl_init|eapply inv_tbl_step; eauto]. Qed.
 
+Lemma store_unreg_step : forall c i a e c', unreg_step c i a e = Some c' -> c_store c' = c_store c.
+Proof.
+  intros c i a e c' Hs. unfold unreg_step in Hs.
+  destruct (negb (is_run (i_phase (c_inst c i)))); [discriminate|].
+  destruct (take_first i (c_tunreg c)) as [[r unreg']|]; [|discriminate]. simpl in Hs. inv_some.
+  destruct (inactive (c_inst c i)); destruct (r_init r); try (destruct (r_kind r) as [|[|]|]); simpl;
+    repeat match goal with |- context [if ?b then _ else _] => destruct b eqn:?; simpl end; auto.
+Qed.
+
 (* the topic row never comes back *)
 Lemma store_false_step : forall c l c' t, step c l c' -> c_store c t = false -> c_store c' t = false.
 Proof.
-  intros c l c' t Hs H. unfold step in Hs. destruct l as [s0 t0|s0 t0 u0|s0 t0| |i ok|i ok|i|i s0|i|vis|i|s0|s0|s0]; simpl in Hs.
+  intros c l c' t Hs H. unfold step in Hs. destruct l as [s0 t0 ch0|s0 t0 u0 ch0|s0 t0| |i ok|i ok|i|i s0|i|vis|i|s0|s0|s0]; simpl in Hs.
   - exec_split Hs; inv_some; simpl; auto.
   - exec_split Hs; inv_some; simpl; auto.
   - exec_split Hs; inv_some; simpl; auto.
@@ -662,11 +733,10 @@ Proof.
       destruct (take_first i (c_texit c)) as [[b e]|]; inv_some; simpl; auto.
   - destruct (negb (is_run (i_phase (c_inst c i)))); [discriminate|].
     destruct (take_first i (c_treg c)) as [[r reg']|]; [|discriminate]. simpl in Hs. inv_some.
-    destruct (inactive (c_inst c i)); [|destruct (lookup _ _); [|destruct ok]]; simpl; auto.
-  - destruct (negb (is_run (i_phase (c_inst c i)))); [discriminate|].
-    destruct (take_first i (c_tunreg c)) as [[r unreg']|]; [|discriminate]. simpl in Hs. inv_some.
-    destruct (inactive (c_inst c i)); destruct (r_init r); try (destruct (r_kind r) as [|[|]|]); simpl;
-      repeat match goal with |- context [if ?b then _ else _] => destruct b eqn:?; simpl end; auto.
+    destruct (inactive (c_inst c i)); [|destruct (lookup _ _); [|destruct (verify_chan _ _ _) as [aC [|]]; [|destruct ok]]]; simpl; auto.
+  - destruct (exec_unreg_inv _ _ _ Hs) as (r0 & rest0 & aC & eR & _ & _ & Hu).
+    rewrite (store_unreg_step _ _ _ _ _ Hu).
+    destruct (pre404_frame c r0 eR) as (_ & _ & _ & _ & _ & _ & _ & _ & _ & -> & _). exact H.
   - exec_split Hs; inv_some; simpl; auto.
   - exec_split Hs; inv_some; simpl; auto.
   - destruct (c_hunreg c) as [|[t1|r] rest]; [discriminate| |]; simpl in Hs.
